@@ -14,27 +14,47 @@ import (
 // so that Marshal/MarshalForSessionTicket reproduce the exact user-specified encoding.
 func (tp *TransportParameters) PopulateFromUQUIC(quicparams tls.TransportParameters) {
 	for pIdx, param := range quicparams {
+		// A raw parameter (e.g. tls.FakeQUICTransportParameter) may reuse a standard ID. It is
+		// still put on the wire verbatim, but it has no typed value to read back.
 		switch param.ID() {
 		case uint64(maxIdleTimeoutParameterID):
-			tp.MaxIdleTimeout = time.Duration(param.(tls.MaxIdleTimeout)) * time.Millisecond
+			if v, ok := param.(tls.MaxIdleTimeout); ok {
+				tp.MaxIdleTimeout = time.Duration(v) * time.Millisecond
+			}
 		case uint64(initialMaxDataParameterID):
-			tp.InitialMaxData = protocol.ByteCount(param.(tls.InitialMaxData))
+			if v, ok := param.(tls.InitialMaxData); ok {
+				tp.InitialMaxData = protocol.ByteCount(v)
+			}
 		case uint64(initialMaxStreamDataBidiLocalParameterID):
-			tp.InitialMaxStreamDataBidiLocal = protocol.ByteCount(param.(tls.InitialMaxStreamDataBidiLocal))
+			if v, ok := param.(tls.InitialMaxStreamDataBidiLocal); ok {
+				tp.InitialMaxStreamDataBidiLocal = protocol.ByteCount(v)
+			}
 		case uint64(initialMaxStreamDataBidiRemoteParameterID):
-			tp.InitialMaxStreamDataBidiRemote = protocol.ByteCount(param.(tls.InitialMaxStreamDataBidiRemote))
+			if v, ok := param.(tls.InitialMaxStreamDataBidiRemote); ok {
+				tp.InitialMaxStreamDataBidiRemote = protocol.ByteCount(v)
+			}
 		case uint64(initialMaxStreamDataUniParameterID):
-			tp.InitialMaxStreamDataUni = protocol.ByteCount(param.(tls.InitialMaxStreamDataUni))
+			if v, ok := param.(tls.InitialMaxStreamDataUni); ok {
+				tp.InitialMaxStreamDataUni = protocol.ByteCount(v)
+			}
 		case uint64(initialMaxStreamsBidiParameterID):
-			tp.MaxBidiStreamNum = protocol.StreamNum(param.(tls.InitialMaxStreamsBidi))
+			if v, ok := param.(tls.InitialMaxStreamsBidi); ok {
+				tp.MaxBidiStreamNum = protocol.StreamNum(v)
+			}
 		case uint64(initialMaxStreamsUniParameterID):
-			tp.MaxUniStreamNum = protocol.StreamNum(param.(tls.InitialMaxStreamsUni))
+			if v, ok := param.(tls.InitialMaxStreamsUni); ok {
+				tp.MaxUniStreamNum = protocol.StreamNum(v)
+			}
 		case uint64(maxAckDelayParameterID):
-			tp.MaxAckDelay = time.Duration(param.(tls.MaxAckDelay)) * time.Millisecond
+			if v, ok := param.(tls.MaxAckDelay); ok {
+				tp.MaxAckDelay = time.Duration(v) * time.Millisecond
+			}
 		case uint64(disableActiveMigrationParameterID):
 			tp.DisableActiveMigration = true
 		case uint64(activeConnectionIDLimitParameterID):
-			tp.ActiveConnectionIDLimit = uint64(param.(tls.ActiveConnectionIDLimit))
+			if v, ok := param.(tls.ActiveConnectionIDLimit); ok {
+				tp.ActiveConnectionIDLimit = uint64(v)
+			}
 		case uint64(initialSourceConnectionIDParameterID):
 			srcConnIDOverride, ok := param.(tls.InitialSourceConnectionID)
 			if ok {
@@ -48,7 +68,9 @@ func (tp *TransportParameters) PopulateFromUQUIC(quicparams tls.TransportParamet
 				}
 			}
 		case uint64(maxDatagramFrameSizeParameterID):
-			tp.MaxDatagramFrameSize = protocol.ByteCount(param.(tls.MaxDatagramFrameSize))
+			if v, ok := param.(tls.MaxDatagramFrameSize); ok {
+				tp.MaxDatagramFrameSize = protocol.ByteCount(v)
+			}
 		default:
 			// ignore unknown parameters
 			continue
